@@ -23,7 +23,7 @@ From Coq Require Import List Bool Arith NArith ZArith.
 From Coq.Strings Require Import String.
 From Verif Require Import Base.Bytes Idl.Ast Idl.AstUtil Idl.Resolve Idl.ResolveSpec
      Idl.Check Idl.Rules Idl.CheckFacts Idl.Accept Idl.AcceptFacts Idl.AcceptConst Idl.AcceptBackend Idl.AcceptSound
-     Idl.ResolvableSpec Idl.ResolvableConst Idl.AcceptComplete.
+     Idl.ResolvableSpec Idl.ResolvableConst Idl.AcceptComplete Idl.RulesKinds Idl.AcceptKinds.
 Import ListNotations.
 Local Open Scope string_scope.
 
@@ -147,6 +147,31 @@ Theorem diagnosed_ConstKindMismatch_refuted :
   exists p b, be_recursive b = false /\ violates ConstKindMismatch p = true /\ accepts p b = AOk.
 Proof. exact AcceptSound.diagnosed_ConstKindMismatch_refuted. Qed.
 Print Assumptions diagnosed_ConstKindMismatch_refuted.
+
+(* The same two rules for EVERY way the declared type can be written (Idl/RulesKinds.v,
+   [violates_deep] / [value_defect] / [spec_kind]): through typedef chains, include
+   prefixes, for the elements / keys / values of containers named directly, and for the
+   values inside a struct literal against the field types read in the file that defines
+   the struct-like; what a name stands for is C05's executable denotation on the PARSED
+   program.  Proof: the resolved image of a type has the category of what its name
+   denotes (C05 resolve_category), Deref arrives at the denoted struct-like with the fuel
+   the model uses (C05 deref_spec_fuel), resolution keeps the shape of types and values.
+   [parsed_program]: the input is what the parser delivers (hypothesis of C05's theorems). *)
+Theorem diagnosed_ConstKindMismatch_deep_recursive : forall p b, parsed_program p = true ->
+  be_recursive b = true -> violates_deep ConstKindMismatch p = true -> accepts p b <> AOk.
+Proof. intros p b Hp Hr Hv Ha. rewrite (proj1 (accepts_sound_kinds_deep p b Hp Ha Hr)) in Hv. discriminate. Qed.
+Print Assumptions diagnosed_ConstKindMismatch_deep_recursive.
+
+Theorem diagnosed_StructLiteralBadKey_deep_recursive : forall p b, parsed_program p = true ->
+  be_recursive b = true -> violates_deep StructLiteralBadKey p = true -> accepts p b <> AOk.
+Proof. intros p b Hp Hr Hv Ha. rewrite (proj2 (accepts_sound_kinds_deep p b Hp Ha Hr)) in Hv. discriminate. Qed.
+Print Assumptions diagnosed_StructLiteralBadKey_deep_recursive.
+
+(* without -r: the defect (of either kind) sits in the main file *)
+Theorem diagnosed_value_defect_deep_main : forall p b d, parsed_program p = true ->
+  main_file p (value_defect d p) = true -> accepts p b <> AOk.
+Proof. intros p b d Hp Hv Ha. rewrite (accepts_sound_kinds_deep_main p b Hp Ha d) in Hv. discriminate. Qed.
+Print Assumptions diagnosed_value_defect_deep_main.
 
 (* ---------------------------------------------------------------- accepts_sound: what acceptance excludes *)
 
@@ -289,6 +314,26 @@ Proof. vm_compute. auto. Qed.
 Example ex_no_values : resolvable wit_valid = true /\ no_values wit_valid = true /\
                        forallb (fun r => negb (violates r wit_valid)) checker_rules = true.
 Proof. vm_compute. auto. Qed.
+(* the deep predicates see what the direct ones do not: a string for a typedef of a typedef
+   of i32, a string inside list<i32>, an unknown key for an include-qualified typedef of a
+   struct, an integer inside the list<string> field of a struct of another file *)
+Definition deep_inc : file :=
+  File (B "x.thrift") [] [] [] [Typedef (ty_named (B "P")) (B "TP") [] []] [] []
+       [StructLike SKStruct (B "P") [Field 1 (B "a") ReqDefault (ty_named (B "i32")) None [] []; Field 2 (B "l") ReqDefault (ty_plain (B "list") None (Some (ty_named (B "string"))) [] []) None [] []] [] []]
+       [] [] [] None.
+Definition deep_prog (c : constant) : program :=
+  [(B "main.thrift", File (B "main.thrift") [Include (B "x.thrift") (Some (B "x.thrift")) None] [] []
+      [Typedef (ty_named (B "i32")) (B "T") [] []; Typedef (ty_named (B "T")) (B "T2") [] []] [c] [] [] [] [] [] None);
+   (B "x.thrift", deep_inc)].
+Example ex_deep :
+  forallb (fun rc => violates_deep (fst rc) (deep_prog (snd rc)) && negb (violates (fst rc) (deep_prog (snd rc))) &&
+                     parsed_program (deep_prog (snd rc)) &&
+                     match accepts (deep_prog (snd rc)) (Backend LGo false) with AOk => false | ARej _ => true end)
+    [(ConstKindMismatch, Constant (B "c") (ty_named (B "T2")) (CLiteral (B "s")) [] []);
+     (ConstKindMismatch, Constant (B "c") (ty_plain (B "list") None (Some (ty_named (B "i32"))) [] []) (CList [CInt 1; CLiteral (B "s")]) [] []);
+     (StructLiteralBadKey, Constant (B "c") (ty_named (B "x.TP")) (CMap [(CLiteral (B "nope"), CInt 1)]) [] []);
+     (ConstKindMismatch, Constant (B "c") (ty_named (B "x.P")) (CMap [(CLiteral (B "l"), CList [CInt 5])]) [] [])] = true.
+Proof. vm_compute. reflexivity. Qed.
 Example ex_acyclic : typedef_acyclic [] chain_file.
 Proof. exact chain_file_acyclic. Qed.
 
